@@ -250,6 +250,22 @@ FIELD_POOL = {
 }
 
 
+# ENUMs that hold SEVERAL spellings of one word differing only by letter case (2, 3, 4, 5 of them: even and odd counts), next to
+# distinct members, in every relative position; plus a second ENUM in the chain for which the same value IS a single match.  A value
+# that is a further case variant of the word matches several allowed values case-insensitively: ambiguous, never to be replaced —
+# whatever the number (or parity) of the colliding spellings.  Kept apart from FIELD_POOL (C09's seeded random schemas draw from it).
+CASE_ENUM_FIELDS = {
+    "AMB2": ("AMB2", '"GB"', "OPT∧ENUM[mb,MB,GB]", None),
+    "AMB3": ("AMB3", '"GB"', "OPT∧ENUM[mb,Mb,MB,GB]", None),
+    "AMB4": ("AMB4", '"x"', "OPT∧ENUM[abc,Abc,ABC,aBC,x]", None),
+    "AMB5": ("AMB5", '"Done"', "OPT∧ENUM[Done,abc,ABC,Abc,abC,aBc]", None),
+    "AMB3I": ("AMB3I", '"Kb"', "REQ∧ENUM[on,kb,On,Kb,ON]", None),          # three spellings interleaved with a word that has two
+    "AMB3U": ("AMB3U", '"x"', "OPT∧ENUM[ωμ,Ωμ,ΩΜ,x]", None),                # non-ASCII case pairs
+    "AMB3B": ("AMB3B", '"GB"', "OPT∧ENUM[mb,Mb,MB,GB]∧ENUM[MB,GB]", None),  # ambiguous in the first ENUM, single match in the second
+    "AMB33": ("AMB33", '"GB"', "OPT∧ENUM[mb,Mb,MB,gb,Gb,GB,tb]", None),     # two words with three spellings each and a unique one
+}
+
+
 def render_schema(spec) -> str:
     lines = [f"==={spec['name']}===", "META:", "  TYPE::SCHEMA", '  VERSION::"1.0"', ""]
     pol = []
@@ -290,10 +306,15 @@ HAND_SCHEMAS = [
     {"name": "META", "uf": "WARN", "fields": ["STATUS", "COUNT", "NAME", "STATE"]},
 ]
 
+# hand schemas of C11 only (ENUMs with case-colliding members, see CASE_ENUM_FIELDS)
+HAND_SCHEMAS_C11 = [
+    {"name": "SCHEMA_G", "uf": "WARN", "fields": ["AMB2", "AMB3", "AMB4", "AMB5", "AMB3I", "AMB3U", "AMB3B", "AMB33", "STATUS"]},
+]
+
 
 def schema_spec(s):
     out = dict(s)
-    out["fields"] = [FIELD_POOL[f] if isinstance(f, str) else f for f in s["fields"]]
+    out["fields"] = [(FIELD_POOL.get(f) or CASE_ENUM_FIELDS[f]) if isinstance(f, str) else f for f in s["fields"]]
     return out
 
 
@@ -528,8 +549,30 @@ def to_tuples(j, value=False):
     return out
 
 
+def mixed_case(a: str):
+    """spellings of `a` in mixed letter case that lower/upper/swapcase/capitalize/title do not produce: alternating case in both
+    phases, only the last letter raised, only the first letter lowered."""
+    alt0 = "".join(ch.upper() if i % 2 == 0 else ch.lower() for i, ch in enumerate(a))
+    alt1 = "".join(ch.lower() if i % 2 == 0 else ch.upper() for i, ch in enumerate(a))
+    return [alt0, alt1, a[:-1].lower() + a[-1:].upper(), a[:1].lower() + a[1:].upper()]
+
+
+def ambiguous_case_values(fd):
+    """texts that are not allowed by some ENUM of the field but equal TWO OR MORE of its allowed values case-insensitively."""
+    from octave_mcp.core import constraints as C
+    chain = fd.pattern.constraints.constraints if (fd is not None and fd.pattern is not None and fd.pattern.constraints is not None) else []
+    out = []
+    for c in chain:
+        if isinstance(c, C.EnumConstraint):
+            for a in c.allowed_values:
+                for v in case_variants(a):
+                    if v not in c.allowed_values and len({x for x in c.allowed_values if x.lower() == v.lower()}) >= 2 and v not in out:
+                        out.append(v)
+    return out
+
+
 def case_variants(a: str):
-    out = [a, a.lower(), a.upper(), a.swapcase(), a.capitalize(), a.title()]
+    out = [a, a.lower(), a.upper(), a.swapcase(), a.capitalize(), a.title()] + mixed_case(a)
     if len(a) > 1:
         out += [a[:1], a[:-1], a[: max(1, len(a) // 2)], a.lower()[:2], a.upper()[:2], a[1:], a[1:].lower()]
     out += [a + "x", a + "X", " " + a, a + " ", " " + a.lower() + " ", a.lower() + "_", a.casefold()]
